@@ -195,11 +195,35 @@ def race(job):
              "exitA": ra[0], "sentA": ra[1], "conflictsA": ra[3], "exitB": state["resB"][0], "held": held, "stderrA": ra[4][-160:]}]
 
 
-def run_all(copia, shim, shimdir, root, hexes, hist_jobs, race_jobs, nproc=8):
+def large_tree(n):
+    """a flat local tree of n small files: first run must land it, the second must send nothing"""
+    d = CFG["dir"]
+    local, hub = os.path.join(d, "biglocal"), os.path.join(d, "bighub")
+    for x in (local, hub):
+        shutil.rmtree(x, ignore_errors=True)
+        os.makedirs(x)
+    for i in range(n):
+        with open(os.path.join(local, f"file_{i:06d}.txt"), "w") as f:
+            f.write(f"content {i}\n")
+    code, s, u, c, err = hub_sync(local, hub, "path")
+    landed = all(os.path.exists(os.path.join(hub, f"file_{i:06d}.txt")) and open(os.path.join(hub, f"file_{i:06d}.txt")).read() == f"content {i}\n" for i in range(n))
+    snap1 = sorted(x for x in os.listdir(hub) if x != ".copia")
+    code2, s2, u2, c2, err2 = hub_sync(local, hub, "path")
+    snap2 = sorted(x for x in os.listdir(hub) if x != ".copia")
+    rec = {"kind": "large", "n": n, "hub": [], "exit": code, "sent": s, "landed": landed,
+           "second": {"exit": code2, "sent": s2, "conflicts": c2, "unchanged": snap1 == snap2}, "stderr": (err + " / " + err2)[-200:]}
+    shutil.rmtree(local, ignore_errors=True)
+    shutil.rmtree(hub, ignore_errors=True)
+    return [rec]
+
+
+def run_all(copia, shim, shimdir, root, hexes, hist_jobs, race_jobs, nproc=8, large=()):
     with Pool(nproc, initializer=_init, initargs=(copia, shim, shimdir, root, hexes)) as pool:
         out = []
         for recs in pool.imap_unordered(run_history, hist_jobs):
             out.extend(recs)
         for recs in pool.imap_unordered(race, race_jobs):
+            out.extend(recs)
+        for recs in pool.imap_unordered(large_tree, list(large)):
             out.extend(recs)
     return out
